@@ -152,7 +152,9 @@ macro_rules! run_inst {
         }
         // ---- V: the other `_fast` constructors that feed fast_quantized_cdf into a table
         if case.flags & 1 != 0 {
-            let symbols: Vec<i64> = (0..n).map(relabel).collect();
+            // flags 16 / 32: one symbol too many / too few (C19: count mismatches must be rejected)
+            let nsym = if case.flags & 16 != 0 { n + 1 } else if case.flags & 32 != 0 { n.saturating_sub(1) } else { n };
+            let symbols: Vec<i64> = (0..nsym).map(relabel).collect();
             if let Some(m) = ctor(out, || {
                 NonContiguousCategoricalDecoderModel::<i64, $Pr, Vec<($Pr, i64)>, $P>::from_symbols_and_floating_point_probabilities_fast(
                     symbols.iter().cloned(), &ws, norm,
